@@ -624,8 +624,9 @@ impl C11 {
         if psr_after & 0x8000 == 0 {
             return fail("trap-privilege", format!("machine was in supervisor mode after the trap returned (psr x{psr_after:04X})"));
         }
-        if (psr_after >> 8) & 7 != 0 {
-            return fail("trap-priority", format!("priority {} after return", (psr_after >> 8) & 7));
+        let want_prio = s.m.psr.map(|p| (p >> 8) & 7).unwrap_or(0);
+        if (psr_after >> 8) & 7 != want_prio {
+            return fail("trap-priority", format!("priority {} after return, the caller ran at {want_prio}", (psr_after >> 8) & 7));
         }
         // user memory unchanged except the program's own save area
         let mut skip: Vec<u16> = (0..8).map(|k| lab(&format!("S{k}"))).collect();
@@ -743,6 +744,28 @@ impl Check for C11 {
                     m.pokes.push((0x100 + x.vect as u16, vec![haddr]));
                 }
             }
+        }
+        // the caller's priority level is part of the machine state a trap routine runs under: a request
+        // at or below it stays masked for the whole routine. A third of the runs raise the caller to
+        // level P and keep such a request pending; its handler (which must never run) marks a user cell.
+        if r.chance(1, 3) {
+            let p = 1 + r.below(7) as u16;
+            m.psr = Some(0x8000 | (p << 8) | 0x2);
+            for d in m.devs.iter_mut() {
+                if let DevSpec::Script(x) = d {
+                    // sources that are meant to be taken must outrank the caller
+                    x.prio = x.prio.max(p as u8 + 1);
+                }
+            }
+            let mut vect = 0x40 + r.below(0x40) as u8;
+            while m.devs.iter().any(|d| matches!(d, DevSpec::Script(x) if x.vect == vect)) {
+                vect = 0x40 + (vect.wrapping_add(1) & 0x3F);
+            }
+            let haddr = 0x1F00;
+            let port = 0xFE70;
+            m.devs.push(DevSpec::Script(ScriptSpec { ports: vec![port], vect, prio: r.below(p as u64 + 1) as u8, raises: vec![(r.below(30) as u32, true)], externals: vec![], read_refuse: vec![], write_refuse: vec![], read_base: 0, mcr_clear: vec![], wrap: 0 }));
+            m.srcs.push(SrcSpec { text: format!(".orig x{haddr:04X}\n    ST R0, SAVE\n    LD R0, VAL\n    STI R0, CELL\n    STI R0, ACK\n    LD R0, SAVE\n    RTI\nSAVE .blkw 1\nVAL .fill xBEEF\nCELL .fill xA5A5\nACK .fill x{port:04X}\n.end\n"), debug: false });
+            m.pokes.push((0x100 + vect as u16, vec![haddr]));
         }
         m.max_ticks = key_tick + 400 + 160 * out_len + 200 * nirq as u32;
         let mut s = C11Scn { m, trap, regs, ccv: r.u16(), str_addr, words, keys, key_tick };
